@@ -40,9 +40,10 @@ type Engine struct {
 }
 
 type axiomTerm struct {
-	ax   *Axiom
-	t    *Term
-	syms map[string]bool
+	ax    *Axiom
+	t     *Term
+	syms  map[string]bool
+	facts []*Term // type invariants of lemma parameters
 }
 
 func (e *Engine) cfgOf(fn *ssa.Function) *cfgInfo {
@@ -86,7 +87,14 @@ func LoadEngine(repo string, trustedDir string, patterns []string) (*Engine, err
 		e.funcs[fn.RelString(nil)] = fn
 	}
 	// contract files in the loaded /repo packages
-	for _, p := range pkgs {
+	var repoPkgs []*packages.Package
+	packages.Visit(pkgs, nil, func(p *packages.Package) {
+		if strings.HasPrefix(p.PkgPath, "github.com/lugu/qiloop") {
+			repoPkgs = append(repoPkgs, p)
+		}
+	})
+	sort.Slice(repoPkgs, func(i, j int) bool { return repoPkgs[i].PkgPath < repoPkgs[j].PkgPath })
+	for _, p := range repoPkgs {
 		dirs := map[string]bool{}
 		for _, f := range p.GoFiles {
 			dirs[filepath.Dir(f)] = true
